@@ -21,7 +21,7 @@ RULE = ('sharded: a generated pipeline (filter on/off, one or two stacked exact 
         'process: equal multiset of output batches, equal aggregate, exactly one final AggregateResult; fewer states than expected '
         '=> ValueError; non-trivial = >= 2 workers, >= 2 shards and >= 2 batches per shard (sharded) / a remote stage '
         '(interleaved); distinct = distinct canonical case JSON'
-        "; also: strict merge over two aggregating stages (list and stream), a generated polling delay of the pool's output queue, 130..200 batches")
+        "; also: strict merge over two aggregating stages (list and stream), a generated polling delay of the pool's output queue, 130..200 batches, the same definition run twice on the same workers, one-shot sources, hashable definition arguments")
 ASSUMPTIONS = [
     'in-process fake transport; real OS threads and asyncio loops: oracles are schedule independent, a 90 s watchdog catches hangs '
     '(re-run before reporting)',
@@ -45,30 +45,38 @@ def run_sharded(case):
   what = f'{ {k: v for k, v in case.items() if k != "data"} } data={data}'
   want_out, want_agg = dist.in_process(data, shape)
   cl = dist.Cluster(case['workers'], prefetch_size=case['prefetch_size'], iterate_batch_size=case['iterate_batch_size'])
-  rq = queue.SimpleQueue()
-  out = []
-
-  def body():
-    for x in orchestrate.sharded_pipelines_as_iterator(cl.pool, dist.define_pipeline, data, shape, result_queue=rq,
-                                                       num_shards=case['shards'], with_batch_output=case['with_batch_output']):
-      out.append(x)
+  from ml_metrics._src.chainables import lazy_fns  # pylint: disable=g-import-not-at-top
+  lazy_fns.clear_cache()
+  runs = case.get('runs', 1)      # the same definition run again on the same pool and workers
+  definition = (dist.define_pipeline, data, shape)
+  if case.get('hashable_args'):   # the definition's arguments as plain tuples
+    definition = (dist.define_pipeline_h, tuple(tuple(b['a']) for b in data), tuple(sorted(shape.items())))
   try:
-    status, res = dist.run_with_watchdog(body, 90)
-    results = dist.drain_queue(rq) if status == 'ok' else []
-    acquired = [w.address for w in cl.pool.acquired_workers]
+    for run in range(runs):
+      rq = queue.SimpleQueue()
+      out = []
+
+      def body():
+        for x in orchestrate.sharded_pipelines_as_iterator(cl.pool, *definition, result_queue=rq,  # pylint: disable=cell-var-from-loop
+                                                           num_shards=case['shards'], with_batch_output=case['with_batch_output']):
+          out.append(x)  # pylint: disable=cell-var-from-loop
+      status, res = dist.run_with_watchdog(body, 90)
+      results = dist.drain_queue(rq) if status == 'ok' else []
+      acquired = [w.address for w in cl.pool.acquired_workers]
+      w = what if runs == 1 else f'{what} (run {run + 1} of {runs} on the same workers)'
+      check(status != 'hang', 'hang', f'{w}: sharded run still going after 90 s')
+      if status == 'error':
+        raise crash(res, w)
+      if case['with_batch_output']:
+        check(sorted(map(dist.canon, out)) == sorted(map(dist.canon, want_out)), 'distributed-output-differs',
+              f'{w}: distributed batches {sorted(map(dist.canon, out))}, in-process {sorted(map(dist.canon, want_out))}')
+      aggs = [r for r in results if isinstance(r, transform.AggregateResult)]
+      check(len(results) == 1 and len(aggs) == 1, 'not-exactly-one-final-aggregate', f'{w}: result queue holds {results!r}')
+      check(norm_result(aggs[0].agg_result) == norm_result(want_agg), 'distributed-aggregate-differs',
+            f'{w}: distributed aggregate {norm_result(aggs[0].agg_result)}, in-process {norm_result(want_agg)}')
+      check(not acquired, 'workers-left-acquired', f'{w}: {acquired}')
   finally:
     cl.stop()
-  check(status != 'hang', 'hang', f'{what}: sharded run still going after 90 s')
-  if status == 'error':
-    raise crash(res, what)
-  if case['with_batch_output']:
-    check(sorted(map(dist.canon, out)) == sorted(map(dist.canon, want_out)), 'distributed-output-differs',
-          f'{what}: distributed batches {sorted(map(dist.canon, out))}, in-process {sorted(map(dist.canon, want_out))}')
-  aggs = [r for r in results if isinstance(r, transform.AggregateResult)]
-  check(len(results) == 1 and len(aggs) == 1, 'not-exactly-one-final-aggregate', f'{what}: result queue holds {results!r}')
-  check(norm_result(aggs[0].agg_result) == norm_result(want_agg), 'distributed-aggregate-differs',
-        f'{what}: distributed aggregate {norm_result(aggs[0].agg_result)}, in-process {norm_result(want_agg)}')
-  check(not acquired, 'workers-left-acquired', f'{what}: {acquired}')
   per_shard = len(data) // max(case['shards'], 1)
   return {'nontrivial': case['workers'] >= 2 and case['shards'] >= 2 and per_shard >= 2,
           'classes': ['sharded', f'workers-{case["workers"]}', f'shards-{min(case["shards"], 4)}'] + (
@@ -90,7 +98,9 @@ def strat_sharded(tier):
       data = [{'a': [i % 10]} for i in range(nb)]
     return {'data': data, 'shape': {'filter': draw(st.booleans()), 'second_agg': draw(st.booleans()),
                                                'num_threads': draw(st.sampled_from([0, 0, 0, 2])),
-                                               'chain2': draw(st.sampled_from([False, False, True]))},
+                                               'chain2': draw(st.sampled_from([False, False, True])),
+                                               'oneshot': draw(st.booleans())},
+            'runs': draw(st.sampled_from([1, 1, 1, 2])), 'hashable_args': draw(st.booleans()),
             'workers': draw(st.sampled_from([1, 2, 2, 3])), 'shards': draw(st.sampled_from([1, 2, 2, 3, 3, 4, 6])),
             'iterate_batch_size': draw(st.sampled_from([1, 1, 2, 3])), 'prefetch_size': draw(st.integers(1, 3)),
             'with_batch_output': draw(st.sampled_from([True, True, False])), 'rseed': draw(st.integers(0, 10**6)),
